@@ -57,6 +57,10 @@ func refString(f byte, b []byte) []byte {
 	case 2, 4:
 		out := append([]byte{f}, b...)
 		return append(out, 0)
+	case 3:
+		// as the library's decoder reads it: format, 16-bit length, that many octets, one terminator octet
+		out := []byte{f, byte(len(b)), byte(len(b) >> 8)}
+		return append(append(out, b...), 0)
 	}
 	return nil
 }
@@ -73,7 +77,7 @@ func runStrings() {
 			n, err := s.Unmarshal(buf)
 			return n, err, strFields(s)
 		})
-		nulTerminated := f == 2 || f == 3 || f == 4
+		nulTerminated := f == 2 || f == 4 // format 0x03 carries its length: any octets, NULs included
 		one := func(content []byte, cname string, mode int) {
 			desc := fmt.Sprintf("format=0x%02x len=%d content=%s ctor=%d", f, len(content), cname, mode)
 			var s *types.SMB_STRING
@@ -147,6 +151,12 @@ func runStrings() {
 		case 1:
 			s = types.NewOEM_STRING()
 			s.SetString(string(content))
+		case 3:
+			// the empty string as the zero value (no buffer at all), or as a decoded empty string cleared by its owner
+			s = &types.OEM_STRING{}
+			if len(content) > 0 {
+				s.Buffer, s.Length = append([]byte(nil), content...), types.USHORT(len(content))
+			}
 		default:
 			s = &types.OEM_STRING{}
 			s.SetString(string(content))
@@ -167,13 +177,16 @@ func runStrings() {
 	for _, n := range stringLengths {
 		cs, names := contents(n, false)
 		for i, c := range cs {
-			one(c, names[i], mode%3)
+			one(c, names[i], mode%4)
 			mode++
 		}
 	}
+	for m := 0; m < 4; m++ {
+		one(nil, "empty", m)
+	}
 	rng := r.Rand("OEM_STRING")
 	for t := 0; t < r.Pick(1500, 40000); t++ {
-		one(nulFree(rng, randLen(rng)), fmt.Sprintf("random#%d", t), t%3)
+		one(nulFree(rng, randLen(rng)), fmt.Sprintf("random#%d", t), t%4)
 	}
 }
 
@@ -545,6 +558,38 @@ func runDirectoryInformation() {
 		}
 		if i%3 == 0 {
 			liveDI.Unmarshal(enc)
+		}
+		// the name given through the string's buffer alone (its length field left as it was: zero in
+		// a new entry, twelve in a decoded one): the count is derived, so the entry encodes as the
+		// consistent assignment does, or is refused
+		if i%2 == 0 {
+			d3 := types.NewSMB_DIRECTORY_INFORMATION()
+			how := "a new entry"
+			if i%4 == 0 {
+				how = "a decoded entry"
+				if _, e := d3.Unmarshal(append([]byte{}, enc...)); e != nil {
+					d3 = types.NewSMB_DIRECTORY_INFORMATION()
+				}
+			}
+			d3.ResumeKey = *rkFromVec(v[:21], i%2 == 0)
+			d3.FileAttributes, d3.LastWriteTime, d3.LastWriteDate, d3.FileSize = d.FileAttributes, d.LastWriteTime, d.LastWriteDate, d.FileSize
+			short := strings.TrimRight(name, " ")
+			d3.FileName.Buffer = []byte(short)
+			var enc3 []byte
+			var e3 error
+			p3, _, _ := mon.Guard(func() { enc3, e3 = d3.Marshal() })
+			dref := types.NewSMB_DIRECTORY_INFORMATION()
+			dref.ResumeKey = *rkFromVec(v[:21], i%2 == 0)
+			dref.FileAttributes, dref.LastWriteTime, dref.LastWriteDate, dref.FileSize = d.FileAttributes, d.LastWriteTime, d.LastWriteDate, d.FileSize
+			dref.FileName = *types.NewOEM_STRINGFromString(short)
+			ref3, eref := dref.Marshal()
+			r.Eval(1)
+			switch {
+			case p3 || e3 != nil || eref != nil:
+				r.Count("directory_entries_named_through_the_buffer_refused", 1)
+			case !bytes.Equal(enc3, ref3):
+				r.Violation("SMB_DIRECTORY_INFORMATION.Marshal:name-through-buffer", fmt.Sprintf("%s whose FileName.Buffer is set to %q (length field untouched) encodes as %d bytes %x, the entry built with that name as %d bytes %x", how, short, len(enc3), enc3, len(ref3), ref3), map[string]any{"fields": desc, "how": how})
+			}
 		}
 		want := rkWant(v[:21], "ResumeKey.")
 		want = append(want, fu("FileAttributes", v[21]), fu("LastWriteTime.DwLowDateTime", v[22]), fu("LastWriteTime.DwHighDateTime", v[23]),
